@@ -15,7 +15,8 @@ Record proc := mk_proc {
   p_kind : pkind;
   p_exit : option Q;       (* instant at which the process ends (NonChild: disappears); None = never *)
   p_status : exitst;       (* how it ends *)
-  p_eintr : list nat }.    (* indices of the waitpid calls on this PID that fail with EINTR *)
+  p_eintr : list (nat * Q) }.  (* (i, d): the i-th waitpid call on this PID fails with EINTR; when that call
+                                  blocks, the signal arrives d seconds after the call was made *)
 
 (* the status word waitpid(2) stores: exit code in bits 8-15; signal in bits 0-6, core flag bit 7 *)
 Definition k_status (e : exitst) : Z :=
@@ -34,26 +35,49 @@ Definition wf_status (e : exitst) : bool :=
   | Killed s _ => ((1 <=? s) && (s <=? 64))%Z
   end.
 
-Definition wf_proc (p : proc) : bool := (0 <? p_pid p)%Z && wf_status (p_status p).
+Definition wf_proc (p : proc) : bool :=
+  (0 <? p_pid p)%Z && wf_status (p_status p) && forallb (fun x => Qle_bool 0 (snd x)) (p_eintr p).
 
 Definition ended_by (p : proc) (t : Q) : bool :=
   match p_exit p with Some T => Qle_bool T t | None => false end.
 
-Definition has_eintr (p : proc) (idx : nat) : bool := existsb (Nat.eqb idx) (p_eintr p).
+(* is the idx-th waitpid call on this PID interrupted, and how long after the call does the signal arrive *)
+Definition eintr_at (p : proc) (idx : nat) : option Q :=
+  match find (fun x => Nat.eqb idx (fst x)) (p_eintr p) with
+  | Some x => Some (snd x)
+  | None => None
+  end.
 
-(* waitpid(pid, flags) issued at instant t as the idx-th call on this PID.  An EINTR
-   comes back at once (simplification: no time passes in an interrupted blocking call). *)
+Definition qmax (x y : Q) : Q := if Qle_bool x y then y else x.
+
+(* waitpid(pid, flags) issued at instant t as the idx-th call on this PID.
+   A call that does not block (WNOHANG, or not our child) fails with EINTR at once.  A blocking call on a
+   child returns at whichever comes first: the exit (status, at max(T, t)) or the signal (EINTR, at t + d);
+   on a tie the signal wins, so d = 0 interrupts even a call whose child has already ended. *)
 Definition k_waitpid (p : proc) (idx : nat) (t : Q) (nohang : bool) : wp :=
-  if has_eintr p idx then WEintr
-  else match p_kind p with
-       | Child =>
-         match p_exit p with
-         | Some T => if Qle_bool T t then WStatus t (k_status (p_status p))
-                     else if nohang then WRunning else WStatus T (k_status (p_status p))
-         | None => if nohang then WRunning else WForever
+  let st := k_status (p_status p) in
+  match eintr_at p idx with
+  | Some d =>
+    if nohang then WEintr t
+    else match p_kind p with
+         | Child =>
+           match p_exit p with
+           | Some T => if Qle_bool (t + d) (qmax T t) then WEintr (t + d) else WStatus (qmax T t) st
+           | None => WEintr (t + d)
+           end
+         | _ => WEintr t
          end
-       | _ => WEchild
-       end.
+  | None =>
+    match p_kind p with
+    | Child =>
+      match p_exit p with
+      | Some T => if Qle_bool T t then WStatus t st
+                  else if nohang then WRunning else WStatus T st
+      | None => if nohang then WRunning else WForever
+      end
+    | _ => WEchild
+    end
+  end.
 
 (* kill(pid, 0) succeeds: the PID is in the process table *)
 Definition k_exists (p : proc) (t : Q) : bool :=
@@ -128,9 +152,17 @@ Definition spec_wait (strict_alive : bool) (p : proc) (start : Q) (timeout : opt
 Definition raw_ival (k : nat) : Q := inject_Z (2 ^ Z.of_nat k) * interval0.
 Definition ival (k : nat) : Q := qmin (raw_ival k) cap.
 
-(* polls a wait(timeout) may need: ceil(25 * timeout) + 12 sleeps, one extra step for the
-   ECHILD switch, one per EINTR *)
+(* loop steps (fuel) a wait(timeout) may need: at most ceil(25 * timeout) + 9 sleeps (9 doublings, then
+   40 ms each), one step for the ECHILD switch, one final step *)
 Definition polls_bound (tm : Q) : nat := (Z.to_nat (Qceiling (tm * 25)) + 12)%nat.
+
+(* ... and a wait without timeout on a process that ends at a finite instant: one more step per EINTR *)
+Definition block_bound (p : proc) (start : Q) : nat :=
+  (length (p_eintr p) + 12 +
+   match p_exit p with Some T => Z.to_nat (Qceiling ((T - start) * 25)) | None => 0 end)%nat.
+
+(* rounds of wait_procs' outer loop: every round but the last two loses a process or lasts a second *)
+Definition rounds_bound (n : nat) (tm : Q) : nat := (n + Z.to_nat (Qceiling tm) + 1)%nat.
 
 (* ---- wait_procs ---- *)
 (* gone/alive partition the input, each gone process got returncode and one callback *)
@@ -143,3 +175,35 @@ Definition spec_partition (n : nat) (has_cb : bool) (gone alive : list nat)
                     && Nat.eqb (count i cbs) (if has_cb then count i gone else 0))
           (seq 0 n)
   && forallb (fun i => Nat.ltb i n) (gone ++ alive).
+
+(* a returncode assignment (index, value) is right: the child's demanded code / None for a non-child,
+   and the process had really ended by the instant wait_procs returned *)
+Definition rc_ok (ps : list proc) (ret : Q) (x : nat * wres) : bool :=
+  match nth_error ps (fst x) with
+  | None => false
+  | Some p =>
+    match p_kind p, snd x with
+    | Child, RInt z => ended_by p ret && (z =? spec_code (p_status p))%Z
+    | NonChild, RNone => ended_by p ret
+    | NeverExisted, RNone => true
+    | _, _ => false
+    end
+  end.
+
+(* the whole oracle for one wait_procs(ps, timeout, callback) call started at `start`:
+   exc = what it raised, (gone, alive) = what it returned, rc / cbs = returncode assignments and
+   callback calls (newest first), ret = the instant it came back *)
+Definition spec_procs (ps : list proc) (cb : cbkind) (start : Q) (timeout : option Q)
+    (exc : option wres) (gone alive : list nat) (rc : list (nat * wres)) (cbs : list nat) (ret : Q) : bool :=
+  if bad_timeout timeout then match exc with Some RValueError => true | _ => false end
+  else match cb with
+  | CbBad => match exc with Some RTypeError => true | _ => false end
+  | _ =>
+    match exc with
+    | Some _ => false
+    | None =>
+      spec_partition (length ps) (match cb with CbOk => true | _ => false end) gone alive rc cbs
+      && forallb (rc_ok ps ret) rc
+      && match timeout with Some t => Qlt_bool ret (start + t + cap) | None => true end
+    end
+  end.
